@@ -314,3 +314,12 @@ def run(ctx):
     r6_idle_client(ctx)
     from . import C05
     C05.r3_transition_discipline(ctx, 'C19.R7')
+
+
+_run_rules = run
+
+
+def run(ctx):
+    _run_rules(ctx)
+    from .. import boundaries
+    boundaries.check(ctx, 'C19.RB', 'C19')
